@@ -22,13 +22,13 @@ def plan(prop, tier):
         jobs = [(t, 7, 0) for t in (0, 1, 2)]
         if prop in ("C12", "C14"):
             jobs += [(t, 5, m) for t in (0, 1, 2) for m in (1, 2)]
-        if prop == "C14":
+        if prop in ("C12", "C14"):     # one notifier only: the pair swap of a two-children removal must not depend on which notifier is set
             jobs += [(t, 5, m) for t in (0, 1, 2) for m in (3, 4)]
     else:
         jobs = [(0, 10, 0), (1, 12, 0), (2, 13, 0)]
         if prop in ("C12", "C14"):
             jobs += [(t, 7, m) for t in (0, 1, 2) for m in (1, 2)]
-        if prop == "C14":
+        if prop in ("C12", "C14"):
             jobs += [(t, 7, m) for t in (0, 1, 2) for m in (3, 4)]
     if prop == "C13":
         jobs = [j for j in jobs if j[0] != 0]
